@@ -1708,6 +1708,7 @@ CheckChildForTraversal(TraversalContext & data, DataNode * nextChild, int32 optK
                                  return true;
                               }
                               matched = true;
+                              if (nextDepth < (int)nextChild->GetDepth()) recursed = true;  // the callback asked us to continue above (nextChild)'s level, so we won't visit anything below (nextChild) either
                               if (recursed) break;  // done both possible actions, so be lazy
                            }
                         }
@@ -1724,6 +1725,7 @@ CheckChildForTraversal(TraversalContext & data, DataNode * nextChild, int32 optK
                               return true;
                            }
                            recursed = true;
+                           if (nextDepth < (int)nextChild->GetDepth()) matched = true;  // a callback below (nextChild) asked us to continue above (nextChild)'s level, so (nextChild) itself isn't to be visited anymore either
                            if (matched) break;  // done both possible actions, so be lazy
                         }
                      }
